@@ -665,3 +665,12 @@ func Dynamic(md protoreflect.MessageDescriptor) protoreflect.Message {
 }
 
 var _ = utf8.ValidString
+
+// InvalidString returns a string that is not valid UTF-8.
+func InvalidString(r *core.Rand) string {
+	s := invalidStrings[r.Intn(len(invalidStrings))]
+	if r.Bool() {
+		s = "ok" + s
+	}
+	return s
+}
